@@ -159,6 +159,10 @@ def gen_frame_spec(rng, nrows, *, kinds=None, n_geo=None, p_missing=0.12, p_empt
     if kinds is None:
         kinds = [rng.choice(KINDS) for _ in range(n_geo)]
     names = list(GEO_NAMES[: len(kinds)])
+    if len(kinds) > 1 and rng.random() < 0.35:
+        # a column literally called 'geometry' (pandas/geopandas habit); the code treats the
+        # name specially, so it must also work when that column is NOT the active one
+        names[rng.randrange(len(names))] = "geometry"
     rng.shuffle(names)
     cols = []
     for name, kind in zip(names, kinds):
